@@ -112,6 +112,45 @@ def _offender(d, path=""):
     return "%s: %s" % (path, type(d).__name__)
 
 
+def h_time_fields(env):
+    """Timestamp / Duration fields (singular, repeated, optional, oneof): the strings are produced by C code (isoformat, isoparse), so this is
+    decided at witnesses only: a solver-chosen span / instant (LIA) and boundary constants, through both casings and both from_dict forms"""
+    import datetime as _dt
+    import json
+
+    from . import c15
+    from ..symtime import MAX_US, US_PER_SEC
+
+    i = env.choose("td", len(c15.BOUNDARY_TD) + 1)
+    us = env.zint("td_us", -c15.DUR_MAX_US, c15.DUR_MAX_US) if i == len(c15.BOUNDARY_TD) else env.zint("td_us", c15.BOUNDARY_TD[i], c15.BOUNDARY_TD[i])
+    j = env.choose("ts", len(c15.BOUNDARY_TS) + 1)
+    if j == len(c15.BOUNDARY_TS):
+        off, lus = env.zint("offset_min", -1439, 1439), env.zint("local_us", 0, MAX_US)
+    else:
+        lus, off = env.zint("local_us", c15.BOUNDARY_TS[j][0], c15.BOUNDARY_TS[j][0]), env.zint("offset_min", c15.BOUNDARY_TS[j][1], c15.BOUNDARY_TS[j][1])
+    inst = lus - off * 60 * US_PER_SEC
+    env.assume(sym.sym_and(inst >= 0, inst <= MAX_US))
+    env.check("reached", True)
+    if env.sym:
+        return
+    import betterproto
+
+    td, dt = c15.mk_timedelta(env, us), c15.mk_datetime(env, lus, off)
+    cat = c15.positions_catalogue()
+    mod = shapes.build_bp(cat)
+    cases = {"repeated": dict(rt=[dt, dt], rd=[td, -td]), "optional": dict(ot=dt, od=td), "oneof-timestamp": dict(gt=dt), "oneof-duration": dict(gd=td)}
+    for pos, kw in cases.items():
+        m = mod.P(**kw)
+        for casing in (betterproto.Casing.CAMEL, betterproto.Casing.SNAKE):
+            d = m.to_dict(casing=casing)
+            for form in ("class", "instance"):
+                back = mod.P.from_dict(d) if form == "class" else mod.P().from_dict(d)
+                env.check("witness:time-fields-from_dict==original", back == m and bytes(back) == bytes(m), "%s %s %r" % (pos, form, d))
+            text = m.to_json(casing=casing)
+            back = mod.P().from_json(text)
+            env.check("witness:time-fields-from_json==original", back == m and bytes(back) == bytes(m), "%s %s" % (pos, text))
+
+
 def units(tier):
     u = []
     cats = []
@@ -132,6 +171,7 @@ def units(tier):
             if casing == "snake" and tier == "quick" and name.startswith("s1") and not name.endswith("singular"):
                 continue
             u.append(("roundtrip[%s | %s]" % (name, casing), h_roundtrip, {"cat": c, "casing": casing}))
+    u.append(("time-fields[Timestamp, Duration x singular/repeated/optional/oneof]", h_time_fields, {}))
     return u
 
 
